@@ -7,7 +7,7 @@ import sys
 from hypothesis import strategies as st
 
 from . import ir, gen, pyh, cpph
-from .ir import Const, Enum, Typedef, Struct, Union, Schema
+from .ir import Const, Enum, Typedef, Struct, Union, Schema, Member, Arm
 
 
 def decl_name_deps(schema, d):
@@ -124,8 +124,44 @@ class Layout(object):
         return False
 
 
+def _add_transitive_chain(draw, schema, assignment, nfiles):
+    """Definitions that reach the file using them only *through* another file: a chain of 2-4 files in which each
+    file includes just its predecessor, and the last one uses names (typedef of typedef of integer as sizer / element /
+    optional, constant defined from a constant as array size and discriminator, typedef of a struct) whose own
+    definitions rest on names of files it does not include itself."""
+    it = draw(st.sampled_from(['u8', 'u16', 'u32', 'u64', 'i8', 'i32']))
+    depth = draw(st.integers(2, 4))
+    decls = list(schema.decls)
+    f = nfiles
+
+    def put(d, fi):
+        decls.append(d)
+        assignment[d.name] = fi
+    put(Typedef('Tq0', it), f)
+    put(Const('Kq0', 2, '2'), f)
+    put(Struct('Sq0', [Member('p', 'u8'), Member('q', draw(st.sampled_from(['u8', 'u16', 'u32', 'u64'])))]), f)
+    put(Enum('Eq0', [['Eq0_a', 1, '1'], ['Eq0_b', 4, '4']]), f)
+    kv = 2
+    for i in range(1, depth):
+        f += draw(st.integers(0, 1)) if i > 1 else 1
+        put(Typedef('Tq%d' % i, 'Tq%d' % (i - 1)), f)
+        kv += 1
+        put(Const('Kq%d' % i, kv, 'Kq%d + 1' % (i - 1)), f)
+        put(Typedef('Sq%d' % i, 'Sq%d' % (i - 1)), f)
+        put(Typedef('Eq%d' % i, 'Eq%d' % (i - 1)), f)
+    t, k, sx, ex = 'Tq%d' % (depth - 1), 'Kq%d' % (depth - 1), 'Sq%d' % (depth - 1), 'Eq%d' % (depth - 1)
+    f += 1
+    members = [Member('n', t), Member('ar', draw(st.sampled_from(['u8', 'u16', sx])), ir.EXTARR, sizer='n'),
+               Member('fx', sx, ir.FIXARR, kv, size_expr=k), Member('op', draw(st.sampled_from([t, sx, ex])), ir.OPT),
+               Member('lm', t, ir.LIMARR, kv, size_expr=k), Member('en', ex), Member('dy', sx, ir.DYNARR)]
+    members = [m for m in members if m.name in ('n', 'ar') or draw(st.integers(0, 3))]
+    put(Struct('Sq9', members), f)
+    put(Union('Uq9', [Arm(kv, t, 'a', disc_expr=k), Arm(kv + 5, sx, 'b', disc_expr=str(kv + 5))]), f)
+    return Schema(decls)
+
+
 @st.composite
-def layouts(draw, opts=None, min_files=2, max_files=5):
+def layouts(draw, opts=None, min_files=2, max_files=5, transitive_focus=3):
     opts = opts or gen.GenOpts(min_decls=4, max_decls=10, const_exprs=True, big_sizes=False)
     schema = draw(gen.schemas(opts))
     n = draw(st.integers(min_files, max_files))
@@ -140,6 +176,9 @@ def layouts(draw, opts=None, min_files=2, max_files=5):
     used = sorted(set(assignment.values()))
     remap = {old: new for new, old in enumerate(used)}
     assignment = {k: remap[v] for k, v in assignment.items()}
+    if transitive_focus and draw(st.integers(0, transitive_focus - 1)) == 0:
+        schema = _add_transitive_chain(draw, schema, assignment, len(used))
+        used = sorted(set(assignment.values()))
     arrangement = draw(st.sampled_from(['flat', 'subdirs', 'relpath', 'relpath']))
     lay = Layout(schema, assignment, len(used), arrangement)
     # redundant direct includes of earlier files are legal and make diamonds / repeated symbols common
